@@ -7,6 +7,7 @@ CONSTANTS
   AllowCrash = FALSE
   MaxFaults = 0
   NoFile = NoFile
+  IsEmptyData <- MCIsEmpty
 SPECIFICATION Spec
 INVARIANTS ContentAtomic NoPartialRecord TmpPrivate Serializable
 CHECK_DEADLOCK FALSE
